@@ -180,6 +180,19 @@ func (f *c08Farm) script(ep *farm.Endpoint, src net.Addr, req []byte, seq uint64
 				"MacAddress": rm.Val{K: rm.MAC, B: []byte{0, 1, 2, 3, 4, byte(i)}}, "Version": rm.UVal(rm.Version, 0x0892), "Date": rm.DateVal(2020, 1, 1+i)}
 			out = append(out, farm.Action{Delay: f.T / 5, Data: rm.Encode(rm.FindOp("GetDevice").ReplyLayout(), 0x17, vals)})
 		}
+		if seq%2 == 1 {
+			// every other discovery: replies are still arriving when the collection ends - a steady stream of further controllers from
+			// 30 ms before to 30 ms after the deadline
+			for i := 0; i < 150; i++ {
+				vals := rm.Vals{"SerialNumber": rm.Val{K: rm.Serial, U: uint64(0x0c100000 + i)}, "IpAddress": rm.IPVal(10, 0, 1, byte(1+i)), "SubnetMask": rm.IPVal(255, 255, 255, 0), "Gateway": rm.IPVal(10, 0, 0, 254),
+					"MacAddress": rm.Val{K: rm.MAC, B: []byte{0, 1, 2, 3, 5, byte(i)}}, "Version": rm.UVal(rm.Version, 0x0892), "Date": rm.DateVal(2020, 2, 1+i%28)}
+				delay := 400 * time.Microsecond
+				if i == 0 {
+					delay = f.T*2/5 - 30*time.Millisecond
+				}
+				out = append(out, farm.Action{Delay: delay, Data: rm.Encode(rm.FindOp("GetDevice").ReplyLayout(), 0x17, vals)})
+			}
+		}
 		return out
 	}
 	reply := echoReply(req)
@@ -208,6 +221,7 @@ func c08(c *Ctx) {
 	if c.Mode == "race" {
 		plans = c.N(6, 20)
 	}
+	c08DiscoveryAtDeadline(c)
 	for p := 0; p < plans && !c08Hung.Load(); p++ {
 		c08Plan(c, p, T)
 	}
@@ -379,6 +393,14 @@ func c08Plan(c *Ctx, planNo int, T time.Duration) {
 			c.Res.Violate("C08:discovery-failed", "GetDevices running alongside concurrent calls failed: "+err.Error(), nil, int64(planNo))
 		} else if len(devs) != 3 {
 			c.Res.Count("alongside:discovery-replies-not-3(grey zone near the deadline)", 1)
+			c.Res.Max("alongside:max-discovery-replies", int64(len(devs)))
+		}
+		// whatever was collected is intact: every entry is one of the farm's controllers
+		for _, dv := range devs {
+			if s := uint32(dv.SerialNumber); !(s >= 0x0c000001 && s <= 0x0c000003) && !(s >= 0x0c100000 && s < 0x0c100000+150) {
+				c.Res.Violate("C08:discovery-garbled", fmt.Sprintf("GetDevices running alongside concurrent calls returned an entry nobody sent: serial %d", s), nil, int64(planNo))
+				break
+			}
 		}
 	}()
 	side.Add(1)
@@ -971,5 +993,84 @@ func c08Linearizable(c *Ctx, T time.Duration) {
 			c.Res.Violate("C08:not-linearizable", fmt.Sprintf("PutCard/GetCardByID/DeleteCard history of %d operations (fixed port=%v) is not linearizable against a sequential controller: some call returned another call's reply", len(judged), fixed),
 				map[string]any{"history": desc, "fixed_port": fixed}, int64(round))
 		}
+	}
+}
+
+// c08DiscoveryAtDeadline: "including discovery while replies are still arriving". A site's controllers answer a discovery in a
+// dense stream that starts before the collection ends and goes on after it, so that the receiving side of the library is in the
+// middle of a datagram when the caller takes the result. Half of the clients run in debug mode (the receive path then also dumps
+// every datagram, which keeps it busy for longer). Oracles: the race detector (in the -race batches), and every returned entry
+// is one that was sent.
+func c08DiscoveryAtDeadline(c *Ctx) {
+	T := 120 * time.Millisecond
+	fm := farm.New()
+	fm.KeepLog = false
+	defer fm.Close()
+	bc, err := fm.AddUDP("127.0.0.1", 0)
+	if err != nil {
+		c.Res.Inconcl("farm: " + err.Error())
+		return
+	}
+	const N = 900
+	layout := rm.FindOp("GetDevice").ReplyLayout()
+	replies := make([][]byte, N)
+	for i := range replies {
+		vals := rm.Vals{"SerialNumber": rm.Val{K: rm.Serial, U: uint64(0x0c200000 + i)}, "IpAddress": rm.IPVal(10, 0, byte(2+i/250), byte(1+i%250)), "SubnetMask": rm.IPVal(255, 255, 0, 0), "Gateway": rm.IPVal(10, 0, 0, 254),
+			"MacAddress": rm.Val{K: rm.MAC, B: []byte{0, 1, 2, 4, byte(i >> 8), byte(i)}}, "Version": rm.UVal(rm.Version, 0x0892), "Date": rm.DateVal(2021, 1+i%12, 1+i%28)}
+		replies[i] = rm.Encode(layout, 0x17, vals)
+	}
+	fm.SetScript(func(ep *farm.Endpoint, src net.Addr, req []byte, seq uint64) []farm.Action {
+		if len(req) != 64 || req[1] != 0x94 {
+			return nil
+		}
+		out := make([]farm.Action, 0, N)
+		for i := range replies {
+			d := 30 * time.Microsecond
+			if i == 0 {
+				d = T - 18*time.Millisecond
+			}
+			out = append(out, farm.Action{Delay: d, Data: replies[i]})
+		}
+		return out
+	})
+	rounds := c.N(10, 40)
+	for k := 0; k < rounds; k++ {
+		u := mkClient(ClientCfg{Bind: "127.0.0.1:0", Broadcast: bc.Addr, Timeout: T, Debug: k%2 == 0})
+		var devs []types.Device
+		var err error
+		panicked := ""
+		func() {
+			defer func() {
+				if r := recover(); r != nil {
+					panicked = fmt.Sprint(r)
+				}
+			}()
+			devs, err = u.GetDevices()
+		}()
+		c.Res.Eval(1)
+		c.Res.DistinctKey("discovery-at-deadline", k%2 == 0)
+		c.Res.Count("discovery-at-deadline:calls", 1)
+		c.Res.Max("discovery-at-deadline:max-replies-collected", int64(len(devs)))
+		switch {
+		case panicked != "":
+			c.Res.Violate("C08:panic:GetDevices", "GetDevices panicked while replies kept arriving at the deadline: "+panicked, nil, int64(k))
+		case err != nil:
+			c.Res.Violate("C08:discovery-failed", "GetDevices failed while replies kept arriving at the deadline: "+err.Error(), nil, int64(k))
+		default:
+			last := -1
+			for _, dv := range devs {
+				i := int(uint32(dv.SerialNumber)) - 0x0c200000
+				if i < 0 || i >= N || fmt.Sprint(dv.Address.Addr()) != fmt.Sprintf("10.0.%d.%d", 2+i/250, 1+i%250) {
+					c.Res.Violate("C08:discovery-garbled", fmt.Sprintf("GetDevices (replies still arriving at the deadline) returned an entry nobody sent: serial %d address %v", dv.SerialNumber, dv.Address), nil, int64(k))
+					break
+				}
+				if i <= last {
+					c.Res.Violate("C08:discovery-garbled", fmt.Sprintf("GetDevices (replies still arriving at the deadline): controller #%d is listed after #%d although it answered earlier", i, last), nil, int64(k))
+					break
+				}
+				last = i
+			}
+		}
+		time.Sleep(50 * time.Millisecond) // the rest of the stream goes nowhere
 	}
 }
